@@ -77,8 +77,11 @@ class Cell:
         from scriptplan.parser.tjp_parser import ProjectFileParser
 
         err = io.StringIO()
-        with contextlib.redirect_stderr(err), contextlib.redirect_stdout(io.StringIO()):
-            project = ProjectFileParser().parse(text)  # parses AND schedules, extensions enabled
+        try:
+            with contextlib.redirect_stderr(err), contextlib.redirect_stdout(io.StringIO()):
+                project = ProjectFileParser().parse(text)  # parses AND schedules, extensions enabled
+        except Exception as e:  # noqa: BLE001
+            return {"reproduced": True, "detail": f"parse()/schedule() of the rendered project raised {type(e).__name__}: {e}"[:300], "tjp": text}
         info = {"base": project.attributes["start"], "g": project.attributes["scheduleGranularity"], "size": project.scoreboardSize()}
         info["onshift"] = {r.fullId: [bool(r.data[0].onShift(i)) for i in range(info["size"])] for r in project.resources if r.leaf()}
         info["wt"] = [project.isWorkingTime(i) for i in range(info["size"])]
@@ -203,10 +206,13 @@ class RelCell(Cell):
         for k, spec in enumerate(self.specs):
             text = render(spec, vals, self.defaults)
             texts.append(text)
-            with contextlib.redirect_stderr(io.StringIO()), contextlib.redirect_stdout(io.StringIO()):
-                if self.before_each is not None:
-                    self.before_each(k)
-                project = ProjectFileParser().parse(text)
+            try:
+                with contextlib.redirect_stderr(io.StringIO()), contextlib.redirect_stdout(io.StringIO()):
+                    if self.before_each is not None:
+                        self.before_each(k)
+                    project = ProjectFileParser().parse(text)
+            except Exception as e:  # noqa: BLE001
+                return {"reproduced": True, "detail": f"parse()/schedule() of project {k} raised {type(e).__name__}: {e}"[:300], "tjp": text}
             info = {"base": project.attributes["start"], "g": project.attributes["scheduleGranularity"], "size": project.scoreboardSize()}
             info["onshift"] = {r.fullId: [bool(r.data[0].onShift(i)) for i in range(info["size"])] for r in project.resources if r.leaf()}
             scs = self.scenarios[k]
